@@ -41,7 +41,7 @@ theorem bad_selector_is_syntax_error (blk allowScopes periods : Bool) (ts : List
 /-- The value of a binding does not depend on its layout (re-export of the value-level theorem:
     any two renderings of one literal tree parse to the same value). -/
 theorem value_layout_irrelevant (l₁ l₂ : L) (r₁ r₂ : List Token) (h₁ : Clean r₁) (h₂ : Clean r₂)
-    (n₁ : NoStr r₁) (n₂ : NoStr r₂) (hv : val l₁ = val l₂) :
+    (n₁ : NoStr false r₁) (n₂ : NoStr false r₂) (hv : val l₁ = val l₂) :
     (parseValue false (size l₁) (render l₁ ++ r₁)).toOption.map (·.1) =
     (parseValue false (size l₂) (render l₂ ++ r₂)).toOption.map (·.1) :=
   C02.layout_irrelevant l₁ l₂ r₁ r₂ h₁ h₂ n₁ n₂ hv
@@ -50,7 +50,7 @@ theorem value_layout_irrelevant (l₁ l₂ : L) (r₁ r₂ : List Token) (h₁ :
     never become part of a statement. -/
 theorem trivia_between_statements_skipped (l : List Bool) (ts : List Token) (hc : Clean ts) :
     skipWs false (triv l ++ ts) = skipWs false ts := by
-  rw [skipWs_clean _ (clean_append (triv_clean l) hc), skipWs_clean _ hc, dropTriv_triv]
+  rw [skipWs_clean false _ (clean_append (triv_clean l) hc), skipWs_clean false _ hc, dropTriv_triv false]
 
 /-- A statement must end at NEWLINE / DEDENT / ENDMARKER. -/
 theorem statement_must_end (stmts : List PStmt) (ts : List Token) (h : isEnd (cur ts) = false) :
